@@ -39,7 +39,7 @@ CHECKS['C05'] = {
     'level_note': 'exploration; the enum unit is exhaustive over the stated small scope only (not over the quantifier of the property)',
     'units': [
         unit('balance', 'keepbalance_c05', '^TestVerifC05Balance$',
-             {'shards': 16, 'checks': 10000}, {'shards': 16, 'checks': 100000, 'timeout': 1500}, env=_ENV),
+             {'shards': 16, 'checks': 10000}, {'shards': 16, 'checks': 200000, 'timeout': 3000}, env=_ENV),
         unit('pinned', 'keepbalance_c05', '^TestVerifC05Pinned$',
              {'shards': 1}, {'shards': 1}, rapid=False, env=_ENV1),
         unit('enum', 'keepbalance_c05', '^TestVerifC05Enum$',
